@@ -53,6 +53,8 @@ def main(tier):
             # always_true_p / always_false_p objects, e.g. after a pickle round trip or AlwaysTruePredicate())
             try:
                 twin = copy.deepcopy(lhs)
+                if not (twin == lhs):  # parameters without value equality (partial objects, instances bound to methods): the copy is another predicate
+                    continue
             except Exception:  # noqa: BLE001
                 continue
             key2 = f"{name}   with p = {d}   [deep copy: equal, distinct objects]"
